@@ -20,7 +20,7 @@ RULE = (
 ASSUMPTIONS = ["reference unquoter: maximal escape runs, greedy strict UTF-8, undecodable bytes exactly as written; CPython's UTF-8 validity rules are trusted"]
 
 # parts also run by 4 threads at once in one process (runner adds the jobs; see yv/ctx.py Ctx.threaded)
-SHARED = [("readback", {"n": 2000}, {"n": 40000}), ("runs", {"n": 2500}, {"n": 50000})]
+SHARED = [("readback", {"n": 1000}, {"n": 20000}), ("runs", {"n": 1200}, {"n": 25000})]
 
 
 def plan(tier, seed):
